@@ -1,0 +1,14 @@
+//go:build verif
+
+package static
+
+// Contracts for govc (contract-based deductive verification, see /verif/DESIGN.md).
+// This file contains comments only and is compiled only with the build tag `verif`.
+
+//@ func (*Modifier).ModifyResponse
+//@   serves C20
+//@   safe index slice make div assert
+//@   loop 0 invariant[pairs] forall k int :: 0 <= k && k < len(ranges) ==> len(ranges[k]) == 2
+//@   loop 0 invariant[allocated] forall k int :: 0 <= k && k < len(ranges) ==> allocated(ranges[k])
+//@   loop 0 invariant[within-content] forall k int :: 0 <= k && k < len(ranges) ==>
+//@        0 <= ranges[k][0] && ranges[k][0] <= ranges[k][1] && ranges[k][1] < info.Size()
